@@ -370,3 +370,165 @@ def extra_C18(tier, seed, scratch, cfg, out):
 def _items(ans):
     inner = ans[4:-1] if ans.startswith("ok [") else ""
     return inner.split(",") if inner else []
+
+
+# ---- C16 ------------------------------------------------------------------------------------------------------
+def _co_scenario(r, ses):
+    """2-3 generator requests on the session's current state"""
+    reqs = []
+    n = r.choice([2, 2, 3])
+    kinds = r.sample(["batch", "batch", "rule", "pages", "net", "pages", "batch"], n)
+    if "batch" not in kinds and "rule" not in kinds:
+        kinds[0] = "batch"
+    for k in kinds:
+        if k == "batch":
+            pool = [ses.page_lru() for _ in range(r.randint(1, 4))]
+            data = {}
+            for _ in range(r.randint(1, 3)):
+                s = r.choice(pool)
+                data[s] = [r.choice(pool) if r.random() < 0.6 else ses.page_lru() for _ in range(r.choice([0, 1, 2, 3]))]
+            reqs.append(("batch", ";".join("%s>%s" % (hx(s), ",".join(hx(t) for t in ts)) for s, ts in data.items()), data))
+        elif k == "rule":
+            from .gen import stems_of, RULE_NAMES
+            st = stems_of(ses.any_lru())
+            a = b"".join(st[: r.randint(1, len(st))])
+            reqs.append(("rule", "%s %s" % (hx(a), r.choice(RULE_NAMES[1:])), None))
+        elif k == "pages":
+            w, ps = ses.pick_we()
+            m = ses.we_map()
+            if w not in m:
+                continue
+            reqs.append(("pages", "%d %s" % (w, brack([hx(p) for p in m[w]])), (w, m[w])))
+        else:
+            o, a = r.choice("01"), r.choice("01")
+            reqs.append(("net", "%s %s" % (o, a), (o, a)))
+    return reqs
+
+
+def extra_C16(tier, seed, scratch, cfg, out):
+    from . import model
+    hits, nscen, nsteps = [], (30 if tier == "quick" else 600), 0
+    known_hits = []
+    for i in range(nscen):
+        r = random.Random(seed * 7907 + 16000 + i)
+        prof = dict(PROFILES["C16"]); prof["read_rate"] = 0.0; prof["g1"] = 0.85
+        prof["w"] = {"reopen": 0, "clear": 0, "create": 5, "addrule": 2, "delete": 2}
+        im = Impl(scratch)
+        try:
+            ses = Session(im, r, prof, cfg=cfg)
+            ses.init()
+            for _ in range(r.randint(2, 7)):
+                getattr(ses, "w_" + r.choices(ses.WRITES, [prof["w"].get(k, 1.0) if k in prof["w"] else 1.0 for k in ses.WRITES])[0])()
+            base = list(ses.lines)
+            reqs = _co_scenario(r, ses)
+            if len(reqs) < 2:
+                continue
+            live = {}
+            for cid, (kind, arg, _) in enumerate(reqs):
+                ses.do("co new %d %s %s" % (cid, kind, arg))
+                live[cid] = {"kind": kind, "probes": [], "answer": None, "arg": reqs[cid][2]}
+
+            def probe():
+                for cid, st in live.items():
+                    if st["answer"] is None and st["kind"] == "pages":
+                        w, ps = st["arg"]
+                        st["probes"].append(ses.do("? pages %d %s" % (w, brack([hx(p) for p in ps]))))
+                    if st["answer"] is None and st["kind"] == "net":
+                        o, a = st["arg"]
+                        st["probes"].append(ses.do("? network %s %s 0" % (o, a)))
+            probe()
+            failed = None
+            while any(st["answer"] is None for st in live.values()):
+                cid = r.choice([c for c, st in live.items() if st["answer"] is None])
+                ans = ses.do("co step %d" % cid)
+                nsteps += 1
+                if ans.startswith("done "):
+                    live[cid]["answer"] = ans[5:]
+                elif ans != "yield":
+                    live[cid]["answer"] = ans
+                    failed = (cid, ans)
+                probe()
+            ses.do("? pagesiter"); final_pages = ses.results[-1][0]
+            ses.do("? counts"); final_counts = ses.results[-1][0]
+            pages = [x.split(":")[0] for x in _items(final_pages)]
+            outs, ins = [], []
+            for p in pages:
+                outs += _items(ses.do("? pagelinksof %s 0 1 1" % p))
+                ins += _items(ses.do("? pagelinksof %s 1 0 0" % p))
+            ses.do("hash")
+            lines = list(ses.lines)
+            results = list(ses.results)
+        finally:
+            im.close()
+        sched = [l for l in lines[len(base):] if l.startswith("co ")]
+        # --- oracle (statement of C16 on the implementation)
+        if failed:
+            hits.append({"kind": "co", "lines": lines, "finding": {"reason": "a request failed under interleaving: %s" % failed[1], "schedule": sched}})
+        # sequential application of the same write requests on a second index
+        seq = list(base)
+        for kind, arg, _ in reqs:
+            if kind == "batch":
+                seq.append("batch " + arg)
+            elif kind == "rule":
+                seq.append("addrule " + arg)
+        seq += ["? pagesiter", "? counts"]
+        sres = corr.replay_impl(scratch, seq)
+        if sorted(_items(sres[-2][0])) != sorted(_items(final_pages)):
+            hits.append({"kind": "co", "lines": lines, "finding": {"reason": "final pages differ from the requests applied one after another",
+                         "interleaved": final_pages[:800], "sequential": sres[-2][0][:800], "schedule": sched}})
+        if sres[-1][0].split("links2=")[-1] != final_counts.split("links2=")[-1]:
+            hits.append({"kind": "co", "lines": lines, "finding": {"reason": "final number of links differs from the sequential application",
+                         "interleaved": final_counts, "sequential": sres[-1][0], "schedule": sched}})
+        nonself_out = sorted(x for x in outs if x.split(">")[0] != x.split(">")[1].split(":")[0])
+        if nonself_out != sorted(ins):
+            hits.append({"kind": "co", "lines": lines, "finding": {"reason": "inbound/outbound lists are not symmetric after the schedule",
+                         "out_only": sorted(set(nonself_out) - set(ins))[:3], "in_only": sorted(set(ins) - set(nonself_out))[:3], "schedule": sched}})
+        for cid, st in live.items():
+            if st["kind"] == "pages" and st["answer"].startswith("ok"):
+                got = set(x.split(":")[0] for x in _items(st["answer"]))
+                sets = [set(x.split(":")[0] for x in _items(p)) for p in st["probes"] if p.startswith("ok")]
+                if sets:
+                    lower, upper = set.intersection(*sets), set.union(*sets)
+                    if not lower <= got:
+                        hits.append({"kind": "co", "lines": lines, "finding": {"reason": "page query misses a page that belonged to the webentity throughout its execution",
+                                     "missing": sorted(lower - got)[:3], "schedule": sched}})
+                    if not got <= upper:
+                        known_hits.append({"kind": "co", "lines": lines, "finding": {"reason": "page query reports a page that never belonged to the webentity during its execution",
+                                           "phantom": sorted(got - upper)[:3], "schedule": sched}})
+            if st["kind"] == "net" and st["answer"].startswith("ok"):
+                def pairs(a):
+                    ps = set()
+                    for row in _items(a):
+                        src = row.split(":")[0]
+                        inner = row.split("{")[1].rstrip("}")
+                        for tw in (inner.split("/") if inner else []):
+                            ps.add((src, tw.split("=")[0]))
+                    return ps
+                got = pairs(st["answer"])
+                sets = [pairs(p) for p in st["probes"] if p.startswith("ok")]
+                if sets:
+                    lower, upper = set.intersection(*sets), set.union(*sets)
+                    if not lower <= got:
+                        hits.append({"kind": "co", "lines": lines, "finding": {"reason": "network query misses a webentity link present throughout its execution",
+                                     "missing": sorted(lower - got)[:3], "schedule": sched}})
+                    if not got <= upper:
+                        known_hits.append({"kind": "co", "lines": lines, "finding": {"reason": "network query reports a webentity link that existed at no moment of its execution",
+                                           "phantom": sorted(got - upper)[:3], "schedule": sched}})
+        if hits:
+            break
+        # --- correspondence with the coroutine model on the same schedule
+        try:
+            mres = model.run_lines(lines)
+            mism = corr.compare(lines, results, mres, "file")
+            out.disagreements += len(mism)
+            if mism:
+                m = mism[0]
+                hits.append({"kind": "no-failing-input-found", "lines": lines[: m.idx + 1],
+                             "no_longer_checks": ["correspondence slice of C16 (generator sections under a schedule): model and implementation disagree on '%s' (%s)" % (m.line[:60], m.what)],
+                             "disagreement": m.to_json()})
+                break
+        except Exception as e:  # noqa
+            out.notes.append("model driver unavailable for C16: %r" % e)
+    out.extra["C16"] = {"scenarios": nscen, "generator_steps": nsteps, "phantom_items_seen": len(known_hits)}
+    real = [h for h in hits if h["kind"] != "no-failing-input-found"]
+    return (real[:2] or hits[:1]) + known_hits[:1]
